@@ -179,8 +179,9 @@ func (s *Scanner) scanComment() string {
 	offs := s.offset - 1 // position of initial '/'
 	next := -1           // position immediately following the comment; < 0 means invalid comment
 	numCR := 0
+	sharp := s.src[offs] == '#' // # - style comment: "#/" and "#*" don't start a // or /* comment
 
-	if s.ch == '/' {
+	if !sharp && s.ch == '/' {
 		//-style comment
 		// (the final '\n' is not considered part of the comment)
 		s.next()
@@ -198,7 +199,7 @@ func (s *Scanner) scanComment() string {
 		goto exit
 	}
 	/*-style comment */
-	if s.ch == '*' {
+	if !sharp && s.ch == '*' {
 		s.next()
 		for s.ch >= 0 {
 			ch := s.ch
